@@ -74,7 +74,7 @@ type ctx struct {
 // (fastIterator.next and binaryIterator.next treat a sub-iterator whose Next() failed with
 // ErrSnapshotStale as exhausted). Observed on the unchanged tree and reported as a suspected
 // genuine defect; such reports do not stop the run.
-const fpSnapMix = "C22:snapshot:iterator-continued-after-cap:silent-mix"
+const fpSnapMix = "snapshot:iterator-continued-after-cap:silent-mix"
 
 func (c *ctx) viol(fp, msg string, extra map[string]any) {
 	w := map[string]any{"impl": c.impl, "config": c.cfg, "ops": tail(c.oplog, 40)}
@@ -118,7 +118,7 @@ func (c *ctx) compare(it iter, want []statehist.KV, what string, skip int, mayFa
 			}
 		}
 		if i >= len(want) {
-			c.viol("C22:"+c.impl+":"+what+":extra-entry", fmt.Sprintf("%s at state %d: extra entry %x (value %x) after the %d expected ones", what, st.ID, h, v, len(want)), map[string]any{"root": st.Root.Hex()})
+			c.viol(c.impl+":"+what+":extra-entry", fmt.Sprintf("%s at state %d: extra entry %x (value %x) after the %d expected ones", what, st.ID, h, v, len(want)), map[string]any{"root": st.Root.Hex()})
 			return false
 		}
 		if h != want[i].Hash {
@@ -126,14 +126,14 @@ func (c *ctx) compare(it iter, want []statehist.KV, what string, skip int, mayFa
 			if st != nil && bytes.Compare(h[:], want[i].Hash[:]) < 0 {
 				kind = "unexpected-entry"
 			}
-			c.viol("C22:"+c.impl+":"+what+":"+kind, fmt.Sprintf("%s at state %d: entry %d is %x, want %x (value %x)", what, st.ID, i, h, want[i].Hash, v), map[string]any{"root": st.Root.Hex()})
+			c.viol(c.impl+":"+what+":"+kind, fmt.Sprintf("%s at state %d: entry %d is %x, want %x (value %x)", what, st.ID, i, h, want[i].Hash, v), map[string]any{"root": st.Root.Hex()})
 			return false
 		}
 		if !bytes.Equal(v, want[i].Value) {
 			if mayFail && v == nil {
 				break
 			}
-			c.viol("C22:"+c.impl+":"+what+":wrong-value", fmt.Sprintf("%s at state %d: entry %x has value %x, want %x", what, st.ID, h, v, want[i].Value), map[string]any{"root": st.Root.Hex()})
+			c.viol(c.impl+":"+what+":wrong-value", fmt.Sprintf("%s at state %d: entry %x has value %x, want %x", what, st.ID, h, v, want[i].Value), map[string]any{"root": st.Root.Hex()})
 			return false
 		}
 		i++
@@ -143,11 +143,11 @@ func (c *ctx) compare(it iter, want []statehist.KV, what string, skip int, mayFa
 			c.r.Count(c.impl+"_stale_iterator_errors", 1)
 			return true
 		}
-		c.viol("C22:"+c.impl+":"+what+":error", fmt.Sprintf("%s at live state %d failed: %v", what, st.ID, err), map[string]any{"root": st.Root.Hex()})
+		c.viol(c.impl+":"+what+":error", fmt.Sprintf("%s at live state %d failed: %v", what, st.ID, err), map[string]any{"root": st.Root.Hex()})
 		return false
 	}
 	if i != len(want) {
-		c.viol("C22:"+c.impl+":"+what+":missing-entry", fmt.Sprintf("%s at state %d: ended after %d entries, want %d (next expected %x)", what, st.ID, i, len(want), want[i].Hash), map[string]any{"root": st.Root.Hex()})
+		c.viol(c.impl+":"+what+":missing-entry", fmt.Sprintf("%s at state %d: ended after %d entries, want %d (next expected %x)", what, st.ID, i, len(want), want[i].Hash), map[string]any{"root": st.Root.Hex()})
 		return false
 	}
 	if mayFail {
@@ -250,7 +250,7 @@ func (d *pdut) extend(rng *rand.Rand, rawKeys bool) bool {
 	e := d.h.DeriveFresh(parent, rng)
 	id := len(d.chain)
 	if err := d.db.Update(e.Child.Root, e.Parent.Root, uint64(id), e.NodeSet(), e.StateSet(rawKeys)); err != nil {
-		d.viol("C22:pathdb:update-failed", fmt.Sprintf("Update %d failed: %v", id, err), nil)
+		d.viol("pathdb:update-failed", fmt.Sprintf("Update %d failed: %v", id, err), nil)
 		return false
 	}
 	d.chain = append(d.chain, e.Child)
@@ -313,7 +313,7 @@ func (d *pdut) checkRoot(i int, rng *rand.Rand) bool {
 		want := st.AccountsFrom(seek)
 		it, err := d.db.AccountIterator(st.Root, seek)
 		if err != nil {
-			d.viol("C22:pathdb:account-fast:open", fmt.Sprintf("AccountIterator(state %d) failed: %v", st.ID, err), nil)
+			d.viol("pathdb:account-fast:open", fmt.Sprintf("AccountIterator(state %d) failed: %v", st.ID, err), nil)
 			return false
 		}
 		if !d.compare(it, want, "account-fast", 0, false, st) {
@@ -321,7 +321,7 @@ func (d *pdut) checkRoot(i int, rng *rand.Rand) bool {
 		}
 		bit, err := d.db.VerifBinaryAccountIterator(st.Root, seek)
 		if err != nil {
-			d.viol("C22:pathdb:account-binary:open", fmt.Sprintf("binary account iterator (state %d) failed: %v", st.ID, err), nil)
+			d.viol("pathdb:account-binary:open", fmt.Sprintf("binary account iterator (state %d) failed: %v", st.ID, err), nil)
 			return false
 		}
 		if !d.compare(bit, want, "account-binary", 0, false, st) {
@@ -339,7 +339,7 @@ func (d *pdut) checkRoot(i int, rng *rand.Rand) bool {
 			want := st.StorageFrom(acct, seek)
 			it, err := d.db.StorageIterator(st.Root, acct, seek)
 			if err != nil {
-				d.viol("C22:pathdb:storage-fast:open", fmt.Sprintf("StorageIterator(state %d) failed: %v", st.ID, err), nil)
+				d.viol("pathdb:storage-fast:open", fmt.Sprintf("StorageIterator(state %d) failed: %v", st.ID, err), nil)
 				return false
 			}
 			if !d.compare(it, want, "storage-fast", 0, false, st) {
@@ -347,7 +347,7 @@ func (d *pdut) checkRoot(i int, rng *rand.Rand) bool {
 			}
 			bit, err := d.db.VerifBinaryStorageIterator(st.Root, acct, seek)
 			if err != nil {
-				d.viol("C22:pathdb:storage-binary:open", fmt.Sprintf("binary storage iterator (state %d) failed: %v", st.ID, err), nil)
+				d.viol("pathdb:storage-binary:open", fmt.Sprintf("binary storage iterator (state %d) failed: %v", st.ID, err), nil)
 				return false
 			}
 			if !d.compare(bit, want, "storage-binary", 0, false, st) {
@@ -366,7 +366,7 @@ func (d *pdut) trieAgreement(i int, rng *rand.Rand) bool {
 	st := d.chain[i]
 	tr, err := trie.New(trie.StateTrieID(st.Root), d.db)
 	if err != nil {
-		d.viol("C22:pathdb:trie-open", fmt.Sprintf("cannot open state trie of state %d: %v", st.ID, err), nil)
+		d.viol("pathdb:trie-open", fmt.Sprintf("cannot open state trie of state %d: %v", st.ID, err), nil)
 		return false
 	}
 	var seek common.Hash
@@ -375,12 +375,12 @@ func (d *pdut) trieAgreement(i int, rng *rand.Rand) bool {
 	}
 	nit, err := tr.NodeIterator(seek[:])
 	if err != nil {
-		d.viol("C22:pathdb:trie-open", fmt.Sprintf("node iterator: %v", err), nil)
+		d.viol("pathdb:trie-open", fmt.Sprintf("node iterator: %v", err), nil)
 		return false
 	}
 	flat, err := d.db.AccountIterator(st.Root, seek)
 	if err != nil {
-		d.viol("C22:pathdb:account-fast:open", fmt.Sprintf("AccountIterator(state %d) failed: %v", st.ID, err), nil)
+		d.viol("pathdb:account-fast:open", fmt.Sprintf("AccountIterator(state %d) failed: %v", st.ID, err), nil)
 		return false
 	}
 	defer flat.Release()
@@ -388,26 +388,26 @@ func (d *pdut) trieAgreement(i int, rng *rand.Rand) bool {
 	n := 0
 	for tit.Next() {
 		if !flat.Next() {
-			d.viol("C22:pathdb:trie-disagreement", fmt.Sprintf("state %d: trie iteration yields account %x, flat iterator ended (err %v)", st.ID, tit.Key, flat.Error()), map[string]any{"root": st.Root.Hex()})
+			d.viol("pathdb:trie-disagreement", fmt.Sprintf("state %d: trie iteration yields account %x, flat iterator ended (err %v)", st.ID, tit.Key, flat.Error()), map[string]any{"root": st.Root.Hex()})
 			return false
 		}
 		full, err := statehist.SlimToFull(flat.Account())
 		if err != nil || flat.Hash() != common.BytesToHash(tit.Key) || !bytes.Equal(full, tit.Value) {
-			d.viol("C22:pathdb:trie-disagreement", fmt.Sprintf("state %d: trie iteration yields %x=%x, flat iterator %x=%x", st.ID, tit.Key, tit.Value, flat.Hash(), flat.Account()), map[string]any{"root": st.Root.Hex()})
+			d.viol("pathdb:trie-disagreement", fmt.Sprintf("state %d: trie iteration yields %x=%x, flat iterator %x=%x", st.ID, tit.Key, tit.Value, flat.Hash(), flat.Account()), map[string]any{"root": st.Root.Hex()})
 			return false
 		}
 		n++
 	}
 	if tit.Err != nil {
-		d.viol("C22:pathdb:trie-iteration-error", fmt.Sprintf("state %d: %v", st.ID, tit.Err), nil)
+		d.viol("pathdb:trie-iteration-error", fmt.Sprintf("state %d: %v", st.ID, tit.Err), nil)
 		return false
 	}
 	if flat.Next() {
-		d.viol("C22:pathdb:trie-disagreement", fmt.Sprintf("state %d: flat iterator yields %x beyond the end of the trie iteration", st.ID, flat.Hash()), map[string]any{"root": st.Root.Hex()})
+		d.viol("pathdb:trie-disagreement", fmt.Sprintf("state %d: flat iterator yields %x beyond the end of the trie iteration", st.ID, flat.Hash()), map[string]any{"root": st.Root.Hex()})
 		return false
 	}
 	if n != len(st.AccountsFrom(seek)) {
-		d.viol("C22:pathdb:trie-disagreement", fmt.Sprintf("state %d: trie and flat iteration agree on %d accounts, model has %d", st.ID, n, len(st.AccountsFrom(seek))), nil)
+		d.viol("pathdb:trie-disagreement", fmt.Sprintf("state %d: trie and flat iteration agree on %d accounts, model has %d", st.ID, n, len(st.AccountsFrom(seek))), nil)
 		return false
 	}
 	d.r.Count("pathdb_trie_agreement_accounts", n)
@@ -415,31 +415,31 @@ func (d *pdut) trieAgreement(i int, rng *rand.Rand) bool {
 	for acct := range st.Storages {
 		str, err := trie.New(trie.StorageTrieID(st.Root, acct, st.StorageRoot(acct)), d.db)
 		if err != nil {
-			d.viol("C22:pathdb:trie-open", fmt.Sprintf("cannot open storage trie %x of state %d: %v", acct, st.ID, err), nil)
+			d.viol("pathdb:trie-open", fmt.Sprintf("cannot open storage trie %x of state %d: %v", acct, st.ID, err), nil)
 			return false
 		}
 		snit, err := str.NodeIterator(nil)
 		if err != nil {
-			d.viol("C22:pathdb:trie-open", fmt.Sprintf("node iterator: %v", err), nil)
+			d.viol("pathdb:trie-open", fmt.Sprintf("node iterator: %v", err), nil)
 			return false
 		}
 		sflat, err := d.db.StorageIterator(st.Root, acct, common.Hash{})
 		if err != nil {
-			d.viol("C22:pathdb:storage-fast:open", fmt.Sprintf("StorageIterator failed: %v", err), nil)
+			d.viol("pathdb:storage-fast:open", fmt.Sprintf("StorageIterator failed: %v", err), nil)
 			return false
 		}
 		stit := trie.NewIterator(snit)
 		m := 0
 		for stit.Next() {
 			if !sflat.Next() || sflat.Hash() != common.BytesToHash(stit.Key) || !bytes.Equal(sflat.Slot(), stit.Value) {
-				d.viol("C22:pathdb:trie-disagreement", fmt.Sprintf("state %d account %x: storage trie yields %x=%x, flat iterator %x=%x", st.ID, acct, stit.Key, stit.Value, sflat.Hash(), sflat.Slot()), map[string]any{"root": st.Root.Hex()})
+				d.viol("pathdb:trie-disagreement", fmt.Sprintf("state %d account %x: storage trie yields %x=%x, flat iterator %x=%x", st.ID, acct, stit.Key, stit.Value, sflat.Hash(), sflat.Slot()), map[string]any{"root": st.Root.Hex()})
 				sflat.Release()
 				return false
 			}
 			m++
 		}
 		if sflat.Next() || m != len(st.Storages[acct]) {
-			d.viol("C22:pathdb:trie-disagreement", fmt.Sprintf("state %d account %x: storage trie has %d slots, flat iterator continues / model has %d", st.ID, acct, m, len(st.Storages[acct])), nil)
+			d.viol("pathdb:trie-disagreement", fmt.Sprintf("state %d account %x: storage trie has %d slots, flat iterator continues / model has %d", st.ID, acct, m, len(st.Storages[acct])), nil)
 			sflat.Release()
 			return false
 		}
@@ -501,7 +501,7 @@ func pathdbCase(r *vrt.Run, idx, max int) {
 	}
 	if cfg.CommitPfx && len(d.chain)-1 > d.diskIdx {
 		if err := db.Commit(d.chain[len(d.chain)-1].Root, false); err != nil {
-			d.viol("C22:pathdb:commit-failed", err.Error(), nil)
+			d.viol("pathdb:commit-failed", err.Error(), nil)
 			return
 		}
 		d.diskIdx = len(d.chain) - 1
@@ -568,7 +568,7 @@ func pathdbCase(r *vrt.Run, idx, max int) {
 				}
 				for k := 0; k < n; k++ {
 					if !it.Next() || it.Hash() != want[k].Hash || !bytes.Equal(value(it, what), want[k].Value) {
-						d.viol("C22:pathdb:"+what+":prefix", fmt.Sprintf("%s at state %d: entry %d wrong before any change", what, st.ID, k), nil)
+						d.viol("pathdb:"+what+":prefix", fmt.Sprintf("%s at state %d: entry %d wrong before any change", what, st.ID, k), nil)
 						return
 					}
 				}
@@ -659,7 +659,7 @@ func (d *sdut) checkRoot(st *statehist.State, isDisk bool, rng *rand.Rand) bool 
 		want := st.AccountsFrom(seek)
 		it, err := d.tree.AccountIterator(st.Root, seek)
 		if err != nil {
-			d.viol("C22:snapshot:account-fast:open", fmt.Sprintf("AccountIterator(state %d) failed: %v", st.ID, err), nil)
+			d.viol("snapshot:account-fast:open", fmt.Sprintf("AccountIterator(state %d) failed: %v", st.ID, err), nil)
 			return false
 		}
 		if !d.compare(it, want, "account-fast", 0, false, st) {
@@ -669,7 +669,7 @@ func (d *sdut) checkRoot(st *statehist.State, isDisk bool, rng *rand.Rand) bool 
 		if !isDisk {
 			bit, err := d.tree.VerifBinaryAccountIterator(st.Root, seek)
 			if err != nil {
-				d.viol("C22:snapshot:account-binary:open", err.Error(), nil)
+				d.viol("snapshot:account-binary:open", err.Error(), nil)
 				return false
 			}
 			if !d.compare(bit, want, "account-binary", 0, false, st) {
@@ -689,7 +689,7 @@ func (d *sdut) checkRoot(st *statehist.State, isDisk bool, rng *rand.Rand) bool 
 			want := st.StorageFrom(acct, seek)
 			it, err := d.tree.StorageIterator(st.Root, acct, seek)
 			if err != nil {
-				d.viol("C22:snapshot:storage-fast:open", fmt.Sprintf("StorageIterator(state %d) failed: %v", st.ID, err), nil)
+				d.viol("snapshot:storage-fast:open", fmt.Sprintf("StorageIterator(state %d) failed: %v", st.ID, err), nil)
 				return false
 			}
 			if !d.compare(it, want, "storage-fast", 0, false, st) {
@@ -699,7 +699,7 @@ func (d *sdut) checkRoot(st *statehist.State, isDisk bool, rng *rand.Rand) bool 
 			if !isDisk {
 				bit, err := d.tree.VerifBinaryStorageIterator(st.Root, acct, seek)
 				if err != nil {
-					d.viol("C22:snapshot:storage-binary:open", err.Error(), nil)
+					d.viol("snapshot:storage-binary:open", err.Error(), nil)
 					return false
 				}
 				if !d.compare(bit, want, "storage-binary", 0, false, st) {
@@ -737,7 +737,7 @@ func snapshotCase(r *vrt.Run, idx int) {
 	for s := 0; s < cfg.Stack; s++ {
 		e := d.h.DeriveFresh(d.chain[len(d.chain)-1], rng)
 		if err := tree.Update(e.Child.Root, e.Parent.Root, e.AccountsCopy(), e.StoragesCopy()); err != nil {
-			d.viol("C22:snapshot:update-failed", err.Error(), nil)
+			d.viol("snapshot:update-failed", err.Error(), nil)
 			return
 		}
 		d.chain = append(d.chain, e.Child)
@@ -751,7 +751,7 @@ func snapshotCase(r *vrt.Run, idx int) {
 		if cfg.CapEvery > 0 && s%cfg.CapEvery == cfg.CapEvery-1 {
 			keep := []int{0, 1, 2, 8}[rng.Intn(4)]
 			if err := tree.Cap(e.Child.Root, keep); err != nil {
-				d.viol("C22:snapshot:cap-failed", err.Error(), nil)
+				d.viol("snapshot:cap-failed", err.Error(), nil)
 				return
 			}
 			d.caps++
@@ -802,7 +802,7 @@ func snapshotCase(r *vrt.Run, idx int) {
 				}
 				for k := 0; k < n; k++ {
 					if !it.Next() || it.Hash() != want[k].Hash || !bytes.Equal(value(it, what), want[k].Value) {
-						d.viol("C22:snapshot:"+what+":prefix", fmt.Sprintf("%s at state %d: entry %d wrong before any change", what, st.ID, k), nil)
+						d.viol("snapshot:"+what+":prefix", fmt.Sprintf("%s at state %d: entry %d wrong before any change", what, st.ID, k), nil)
 						return
 					}
 				}
